@@ -6,7 +6,10 @@ import (
 	"fmt"
 	"go/constant"
 	"go/types"
+	"strconv"
 	"strings"
+
+	"golang.org/x/tools/go/ssa"
 )
 
 type Env struct {
@@ -520,6 +523,47 @@ func (env *Env) callExpr(x *ECall) (TV, error) {
 		return nil
 	}
 	switch x.Fn {
+	case "isfunc":
+		// isfunc(argN, "Name"): at this call site the N-th argument is, in the program text, the function, closure or
+		// bound method called Name ("f", "T.m", "f$1"). A site constant: true or false. Meaningful in call-site clauses only.
+		if len(x.Args) != 2 {
+			return TV{}, errf("isfunc takes an argument name and a function name")
+		}
+		id, ok1 := x.Args[0].(*EIdent)
+		want, ok2 := x.Args[1].(*EStr)
+		if !ok1 || !ok2 || !strings.HasPrefix(id.Name, "arg") {
+			return TV{}, errf("isfunc takes an argument name (argN) and a function name")
+		}
+		n, err := strconv.Atoi(id.Name[3:])
+		if err != nil {
+			return TV{}, errf("isfunc: %s is not an argument name", id.Name)
+		}
+		vc := env.vc
+		if vc.curBlock == nil || vc.curIdx >= len(vc.curBlock.Instrs) {
+			return TV{}, errf("isfunc(...) outside a call-site clause")
+		}
+		ci, ok := vc.curBlock.Instrs[vc.curIdx].(ssa.CallInstruction)
+		if !ok {
+			return TV{}, errf("isfunc(...) outside a call-site clause")
+		}
+		common := ci.Common()
+		var v ssa.Value
+		if common.IsInvoke() {
+			if n == 0 {
+				v = common.Value
+			} else if n-1 < len(common.Args) {
+				v = common.Args[n-1]
+			}
+		} else if n < len(common.Args) {
+			v = common.Args[n]
+		}
+		if v == nil {
+			return TV{}, errf("isfunc: the call has no argument %s", id.Name)
+		}
+		if staticFuncName(v) == want.V {
+			return TV{t: "true", ty: tBool}, nil
+		}
+		return TV{t: "false", ty: tBool}, nil
 	case "held":
 		// held(Type.mu): at this site a mutex `mu` of some object of struct type Type is certainly held (must-hold lockset
 		// dataflow, the same analysis as the guarded_by obligations). Meaningful in call-site clauses only.
@@ -782,4 +826,38 @@ func (env *Env) callExpr(x *ECall) (TV, error) {
 		n.names[p.Name] = a
 	}
 	return n.tr(pd.Body)
+}
+
+// staticFuncName: the name of the function a value denotes in the program text ("" when it is not a function constant,
+// closure or bound method).
+func staticFuncName(v ssa.Value) string {
+	switch x := v.(type) {
+	case *ssa.ChangeType:
+		return staticFuncName(x.X)
+	case *ssa.Function:
+		return funcDisplayName(x)
+	case *ssa.MakeClosure:
+		if f, ok := x.Fn.(*ssa.Function); ok {
+			return funcDisplayName(f)
+		}
+	}
+	return ""
+}
+
+func funcDisplayName(f *ssa.Function) string {
+	if strings.HasSuffix(f.Name(), "$bound") || strings.HasSuffix(f.Name(), "$thunk") {
+		if obj, ok := f.Object().(*types.Func); ok {
+			if sig, ok := obj.Type().(*types.Signature); ok && sig.Recv() != nil {
+				t := sig.Recv().Type()
+				if p, ok := t.(*types.Pointer); ok {
+					t = p.Elem()
+				}
+				if n, ok := t.(*types.Named); ok {
+					return n.Obj().Name() + "." + obj.Name()
+				}
+			}
+			return obj.Name()
+		}
+	}
+	return shortFuncName(f)
 }
